@@ -327,9 +327,26 @@ RejectedNeverInState ==
        /\ okset(L.cur)
        /\ \A e \in HasState(L) : okset(L.sa[e])
 
-\* (4) a ban holds: where the state after every extremity has u banned, the resolved state has u banned; and no
-\* event that u sent on top of events after all of which u was banned is accepted
+\* (4) a ban holds.  Weak form: where the state after every extremity has u banned, u is not a member in the resolved
+\* state; and no event of u's - other than u's own membership event - sent on top of events after all of which u
+\* was banned is accepted.
 BanHolds ==
+    \A s \in Judges, u \in Users :
+       LET L == srv[s] IN
+       /\ (L.tips # {} /\ \A p \in L.tips : Banned(L.sa[p], u))
+             => ~\E x \in L.cur : KeyOf(E, x) = <<"member", u>> /\ E[x].membership = "join"
+       /\ \A e \in HasState(L) :
+            (/\ E[e].sender = u /\ KeyOf(E, e) # <<"member", u>>
+             /\ E[e].prev # {} /\ E[e].prev \subseteq HasState(L) /\ \A p \in E[e].prev : Banned(L.sa[p], u))
+               => L.vd[e] # "accepted"
+
+\* Strict form: ... the resolved state has u banned, and no event of u's at all is accepted there.
+\* NOT a theorem of the design: state resolution v2 replays conflicting bans against the resolved power state, so two
+\* different bans of u (a moderator bans u and bans u again on one branch, and is banned himself on the other) can
+\* BOTH fail, leaving u without a membership event - free to join a public room again.  TLC finds this with three
+\* events beyond the prefix and a moderator on the second server (plan v10-3events of checks/x06.py, which records
+\* the refutation as a note about the design); the invariant is kept for every other plan.
+BanHoldsStrict ==
     \A s \in Judges, u \in Users :
        LET L == srv[s] IN
        /\ (L.tips # {} /\ \A p \in L.tips : Banned(L.sa[p], u)) => Banned(L.cur, u)
